@@ -15,7 +15,7 @@ ASSUMPTIONS = ["the fault model is ArithmeticError raised by the user-visible KK
                "conelp answers 'unknown' for an iteration-0 failure that follows a successful start-up factorisation - both outcomes are accepted there"]
 REQUIRED_COUNTERS = ["inject.conelp.factor", "inject.conelp.solve", "inject.coneqp.factor", "inject.coneqp.solve", "inject.cpl.factor",
                      "inject.cpl.solve", "inject.cp.factor", "inject.cp.solve", "outcome.unknown", "outcome.rank-ValueError",
-                     "refusing-F.runs", "with-start-points", "coneqp.no-inequalities", "nl.zero-optimum", "nl.show-progress", "cone.show-progress", "conelp.user-defined-x-y-types"]
+                     "refusing-F.runs", "with-start-points", "coneqp.no-inequalities", "nl.zero-optimum", "nl.show-progress", "cone.show-progress", "conelp.user-defined-x-y-types", "cone.kktreg-option-present"]
 
 
 def plan(tier):
@@ -221,6 +221,10 @@ def run(ctx):
         if rng.random() < 0.2:
             opts["show_progress"] = True              # the progress / termination messages are code paths too
             ctx.count("cone.show-progress")
+        if rng.random() < 0.2:
+            # the (validated) regularisation option of the 'ldl' solver present in the options: the containment rules are the same
+            opts["kktreg"] = rng.choice([1e-9, 0.0, 0])
+            ctx.count("cone.kktreg-option-present")
         custom = solver == "conelp" and rng.random() < 0.3
         if custom:
             # user-defined vector types for x and y (documented: xnewcopy, xdot, xaxpy, xscal, ynewcopy, ...; G and A as
